@@ -247,6 +247,12 @@ func writeInit(scDir string, init []InitFile) error {
 		if err := os.MkdirAll(filepath.Dir(p), 0o755); err != nil {
 			return err
 		}
+		if f.Role == "symlink" {
+			if err := os.Symlink(string(f.Content), p); err != nil {
+				return err
+			}
+			continue
+		}
 		if err := os.WriteFile(p, f.Content, 0o644); err != nil {
 			return err
 		}
